@@ -59,6 +59,12 @@ type Config struct {
 	Cache    string
 	// Tagged: custom marshaler with UnmarshalerUsesRegisteredTypes (v1marshaler only)
 	Tagged bool
+	// RegisteredTypes sets UnmarshalerUsesRegisteredTypes with the default JSON
+	// marshaler (the configuration of TestNilValues: ValuesLike=nil, values are
+	// not retrievable after a reload, only membership is)
+	RegisteredTypes bool
+	// MaxDepth bounds the search depth for this configuration (0 = closure)
+	MaxDepth int
 	// InMemory: start from mast.NewInMemory() (no store, bf 16)
 	InMemory bool
 	// CustomCompare: install a counting KeyCompare wrapper (fault injection)
